@@ -13,7 +13,7 @@ from .edits import Insert, Match, Remove
 from .matching import WeightedBipartiteMatcher
 from .sequences import SequenceEdit, SequenceNode
 from .tree import Edit, TreeNode
-from .utils import HashableCounter, largest
+from .utils import HashableCounter
 
 
 class MultiSetEdit(SequenceEdit):
@@ -86,19 +86,24 @@ class MultiSetEdit(SequenceEdit):
     def is_complete(self) -> bool:
         return self._matcher.is_complete()
 
-    def edits(self) -> Iterator[Edit]:
-        yield from self._edits
-        yield from self._matched_kvp_edits
+    def _unmatched_edits(self) -> Iterator[Edit]:
+        """Yields the removals and insertions of the nodes that are left unmatched by the matching"""
         remove_matched: HashableCounter[TreeNode] = HashableCounter()
         insert_matched: HashableCounter[TreeNode] = HashableCounter()
-        for (rem, (ins, edit)) in self._matcher.matching.items():
-            yield edit
+        for (rem, (ins, _)) in self._matcher.matching.items():
             remove_matched[rem] += 1
             insert_matched[ins] += 1
         for rm in (self.to_remove - remove_matched).elements():
             yield Remove(to_remove=rm, remove_from=self.from_node)
         for ins in (self.to_insert - insert_matched).elements():
             yield Insert(to_insert=ins, insert_into=self.from_node)
+
+    def edits(self) -> Iterator[Edit]:
+        yield from self._edits
+        yield from self._matched_kvp_edits
+        for (_, (_, edit)) in self._matcher.matching.items():
+            yield edit
+        yield from self._unmatched_edits()
 
     def tighten_bounds(self) -> bool:
         """Delegates to :meth:`WeightedBipartiteMatcher.tighten_bounds`."""
@@ -111,18 +116,24 @@ class MultiSetEdit(SequenceEdit):
         b = self._matcher.bounds()
         for kvp_edit in self._matched_kvp_edits:
             b = b + kvp_edit.bounds()
-        if len(self.to_remove) > len(self.to_insert):
-            for edit in largest(
-                    *(Remove(to_remove=r, remove_from=self.from_node) for r in self.to_remove),
-                    n=len(self.to_remove) - len(self.to_insert),
-                    key=lambda e: e.bounds()
-            ):
+        if self._matcher.is_complete():
+            # The matching is known, so add the cost of exactly the nodes that it leaves unmatched:
+            for edit in self._unmatched_edits():
                 b = b + edit.bounds()
-        elif len(self.to_remove) < len(self.to_insert):
-            for edit in largest(
-                    *(Insert(to_insert=i, insert_into=self.from_node) for i in self.to_insert),
-                    n=len(self.to_insert) - len(self.to_remove),
-                    key=lambda e: e.bounds()
-            ):
-                b = b + edit.bounds()
-        return b
+            return b
+        # The matching is not yet known. All but min(#to_remove, #to_insert) of the nodes of the larger side will
+        # have to be removed or inserted; in the best case they are the cheapest ones, in the worst the costliest:
+        num_remove = sum(self.to_remove.values())
+        num_insert = sum(self.to_insert.values())
+        if num_remove > num_insert:
+            costs = sorted(
+                Remove(to_remove=r, remove_from=self.from_node).bounds().upper_bound for r in self.to_remove.elements()
+            )
+        elif num_remove < num_insert:
+            costs = sorted(
+                Insert(to_insert=i, insert_into=self.from_node).bounds().upper_bound for i in self.to_insert.elements()
+            )
+        else:
+            return b
+        n = abs(num_remove - num_insert)
+        return b + Range(sum(costs[:n]), sum(costs[-n:]))
